@@ -22,6 +22,9 @@ CLAIMED = {
  "C11": ("7/C11", "must-pass-through and path rules over the event loop and its sweep closure (answer/remove pairing in Peek/Pop and omission form), ownership of the heap key and of the callback/listener fields, channel-capacity constant facts, identity-based wiring check",
          "Structural necessary conditions only: forwarding handlers return the queue's answer for the leader's revision; the applied callback follows the commit and prefers the leader index, wired to the same queue object; answered waiters leave the heap and only answered ones do; the heap key is immutable; the waiter channel is buffered and the loop has no other blocking operation; success release only under waiter.revision <= notified. Timeliness and fairness are not decided.",
          "go/types+go/ssa; Go channel semantics (buffered send does not block); iter.Consume is synchronous"),
+ "C16": ("7/C16", "CFG edge-cut guard entailment with interval-normalised atoms per RPC handler and table-layer method, interprocedural validator rule, status-code constant facts, registration type facts, crash-surface ownership table, request/response type-table agreement",
+         "Structural necessary conditions only: request-shape guards and their codes for all five KV RPCs, size limits on every proposing path including puts nested in both transaction branches, error-edge mapping (unknown table -> NotFound, no swallowed error), read-only/forwarding registration on the follower, and the explicit crash surface (panics, unchecked assertions) on request paths against a reviewed table plus Lookup type-table agreement. Absence of all runtime panics is not decided.",
+         "go/types+go/ssa; grpc status/codes API; reviewed crash-surface table in checker/c16.go"),
 }
 PENDING_REASON = "rules designed (DESIGN.md section 7), check not built yet"
 checks=[]; na=[]
